@@ -34,7 +34,7 @@ def main():
         if not os.path.isdir(d) or (only and sid not in only):
             continue
         meta = json.load(open(os.path.join(d, 'meta.json')))
-        prop = meta['property']
+        prop = meta.get('expected_check') or meta['property']
         tmp = tempfile.mkdtemp(prefix='verif-seeded-%s-' % sid, dir='/tmp')
         try:
             shutil.copytree(os.path.join(REPO, 'lib'), os.path.join(tmp, 'lib'),
